@@ -467,6 +467,16 @@ def main(argv):
         if not ok:
             problems.append(("extract", "harness/cmd/extract", msg))
         ns, names = theorem_names(props_file, pid)
+        # further files of property theorems (same Lean namespace as the main one; their modules are in lean_targets)
+        for extra in cfg.get("extra_props_files", []):
+            ep = os.path.join(VERIF, extra)
+            if os.path.exists(ep):
+                ens, enames = theorem_names(ep, pid)
+                if ens != ns:
+                    problems.append(("harness", extra, "namespace %s differs from %s" % (ens, ns)))
+                names += [n for n in enames if n not in names]
+            else:
+                problems.append(("proof", extra, "property theorem file missing"))
         if not a.no_lean:
             rc, out, secs = lake_build(modules)
             log("[%s] lake build %s: rc=%d %.1fs" % (pid, " ".join(modules), rc, secs))
